@@ -29,6 +29,10 @@ CLAIMED = {
             "Static, all schedules for the clauses that are code shape: execute() is entered only inside `if self.is_idempotent`; one original start outside the loop; every speculative start lies in the retries_remaining > 0 region and cannot recur without the decrement, the counter is otherwise only zeroed (=> at most 1 + max starts); execute returns either a result for which can_be_ignored was false or only where async_tasks.is_empty() and retries_remaining == 0. Liveness of the select loop is not decided.",
             "Trusts rustc MIR and the futures::select!/FuturesUnordered semantics.",
             "DESIGN.md §3 C13"),
+    "C14": ("dataflow regions (id comparison, Unprepared arm, `?` Continue edges), def-use provenance of the re-sent frame's fields and of the metadata snapshot, who-may-call on the metadata cache",
+            "Static, all histories for the clauses that are code shape: reprepare returns Ok only where the new id equalled the old one; the EXECUTE is re-sent only on the Unprepared arm after an awaited reprepare Ok and every field of the re-sent frame is the first frame's field or built from the same request argument (no regenerated timestamp, no defaulted paging state); for each send the skip_metadata flag, the metadata id and the metadata used to decode the response come from one calculate_cached_metadata_params snapshot taken after the latest metadata read (after reprepare for the resend); the batch loop re-sends only through a successful reprepare; the cache is replaced only by reprepare or by a response that carried an id.",
+            "Trusts rustc MIR; server behaviour out of scope.",
+            "DESIGN.md §3 C14"),
     "C15": ("who-writes census on the tablet list, normalised comparison extraction from the predicate closures (sibling agreement lookup vs. insert), cut/dominance rules on add_tablet, dataflow guard on payload validation",
             "Static, history-independent necessary conditions: tablet_list is mutated only by add_tablet - through exactly one drain then one insert on every path - and by maintenance; range bounds are immutable; the two overlap bounds of insert are the very predicates the lookup uses (t.last < x / t.first <= x instantiated at new.first / new.last) and drain(left..right) precedes insert(left); a payload is accepted only where last > first; per-DC replica lists are filled from the full list; unresolvable tablets are dropped and the unknown-replica flags can only be raised by add_tablet. The invariant over histories as such is not enumerated.",
             "Trusts rustc MIR; the rule compares siblings inside the crate rather than a frozen table.",
